@@ -158,6 +158,12 @@ class LabelWorld(OracleWorld):
     def read_at(self, m, st, cur, pos):
         """The Option<char> (or Option<(usize, char)>) at `pos` of the cursor's sub-string."""
         d, _, lo, hi, ix, _ = cur.data
+        if pos[0] == "abs":
+            # a position counted from the label's start is a position relative to the rule's own when the path
+            # has fixed `offset` to one value (e.g. the `offset == 0` branch of a helper)
+            r0 = rng_get(st, Sym("offset", "usize"))
+            if len(r0) == 1 and r0[0][0] == r0[0][1]:
+                pos = ("rel", pos[1] - r0[0][0])
         if pos[0] != "rel":
             raise AnalysisError("label read at the absolute position %r, not at a position relative to the rule's own" % (pos[1],))
         k = pos[1]
@@ -218,6 +224,22 @@ class LabelWorld(OracleWorld):
         if isinstance(it, Opq) and it.kind in ("lcur", "rev", "skip"):
             return self.cursor_next(m, st, ref, self.cursor(m, st, it))
         return None
+
+    def str_strip_prefix(self, m, st, sv, pat):
+        """sub.strip_prefix(c) for a character constant: reads the first character of the sub-string."""
+        sub = self.substr(sv)
+        if sub is None or not (isinstance(pat, I) and pat.ty == "char"):
+            raise AnalysisError("strip_prefix(%r) on %r" % (pat, sv))
+        lo, hi = sub
+        cur = Opq("lcur", (1, lo, lo, hi, False, True))
+        r = self.read_at(m, st, cur, lo)
+        if isinstance(r, Adt) and r.variant == 0:
+            return ip.none()
+        c = r.fields[0]
+        if not ip.compare(st, "Eq", c, pat, self):
+            return ip.none()
+        nxt = self._add(lo, 1) if lo[0] in ("rel", "abs") else lo
+        return ip.some(Ref(("val", Str(("label-sub", nxt, hi)))))
 
     def str_split_once(self, m, st, sv, pat, name):
         raise AnalysisError("the label is cut with %s(%s): that is the %s occurrence of the character in the label, which is the rule's own position only if the character does not occur %s — a repeated contextual character would be judged in the context of another occurrence" % (name, "the character at offset" if isinstance(pat, Sym) and pat.name == ("at", 0) else repr(pat), "first" if name == "split_once" else "last", "earlier" if name == "split_once" else "later"))
@@ -321,11 +343,14 @@ class LabelWorld(OracleWorld):
             return f == "present"
         known_present = [kk for (t, kk), v in ((key, v) for key, v in st.facts.items() if isinstance(key, tuple) and len(key) == 2 and key[0] == "at") if v == "present"]
         known_absent = [kk for (t, kk), v in ((key, v) for key, v in st.facts.items() if isinstance(key, tuple) and len(key) == 2 and key[0] == "at") if v == "absent"]
+        # a position that certainly lies at or after the label's start and is absent lies beyond its end: so do
+        # all later ones
+        r0 = rng_get(st, Sym("offset", "usize"))
+        if any(kk <= k and (kk >= 0 or r0[0][0] + kk >= 0) for kk in known_absent):
+            return False
         if k >= 0:
             if any(kk >= k for kk in known_present):
                 return True
-            if any(0 <= kk <= k for kk in known_absent):
-                return False
             return None
         # k < 0: position offset+k exists iff offset+k >= 0, provided the rule's own position exists
         r = rng_get(st, Sym("offset", "usize"))
@@ -342,6 +367,11 @@ class LabelWorld(OracleWorld):
         if isinstance(it, Ref):
             it = deref_all(m, st, it)
         if isinstance(it, Opq) and (it.kind == "lcur" or (it.kind == "chars" and self.substr(it.data[0]) not in (None, (("abs", 0), None)))):
+            return self.cursor_next(m, st, itref, self.cursor(m, st, it))
+        r0 = rng_get(st, Sym("offset", "usize"))
+        if isinstance(it, Opq) and it.kind == "chars" and self.substr(it.data[0]) == (("abs", 0), None) and len(r0) == 1 and r0[0][0] == r0[0][1] and not st.ext.get("scan"):
+            # `offset` is one known value on this path: reads from the label's start are reads at known
+            # positions relative to it
             return self.cursor_next(m, st, itref, self.cursor(m, st, it))
         n = st.ext.get("scan", 0) + 1
         ans = st.choose(("scan-next", n), ["Some", "None"])
